@@ -66,7 +66,7 @@ try:
         env['CVISE_REPO'] = tree
     for c in checks:
         t = time.time()
-        rcc, outc = sh(f'cd /verif && timeout 1700 ./check {c} --tier quick', 1800, env=env)
+        rcc, outc = sh(f"cd {os.environ.get('VERIF_ROOT', '/verif')} && timeout 1700 ./check {c} --tier quick", 1800, env=env)
         lines = [l for l in outc.split('\n') if l.startswith(('VIOLATION', '# ', 'TOOL'))]
         res[c] = {'exit': rcc, 'seconds': round(time.time() - t, 1), 'lines': [l[:300] for l in lines[:6]]}
         meta['ran'].append(f'./check {c} --tier quick')
